@@ -183,14 +183,15 @@ Proof.
   - intros Hman Hbus Hdrv Hprot Hfits Hrwf. rewrite <- ER. apply respond_mandatory; assumption.
   - intros Hman Hc. destruct (not_mandatory p Hman) as (E1 & E2 & E3 & E4).
     destruct (respond_prefix r i Hi Hc) as (P1 & P2 & S1 & Q1 & Q2). cbv zeta in *.
+    set (n1 := fst (claim_started (rn r) i)) in *.
     unfold respond_iso_request in ER. rewrite P1, P2, E1, E2, E3, E4 in ER.
     unfold handler_accepts. cbn [with_rn r_cfg] in ER.
     destruct iso_answers_match_reference as (_ & _ & _ & _ & RI & _). rewrite RI in ER.
     destruct (c_iso_handler (r_cfg r)) as [acc|]; cbn [negb andb] in ER.
     + destruct (existsb (Z.eqb p) ref_ignore_broadcast); [rewrite andb_false_r|rewrite andb_true_r].
-      * injection ER as <- <-. cbn [with_rn rn]. auto.
-      * destruct (existsb (Z.eqb p) acc); injection ER as <- <-; cbn [with_rn rn]; auto.
-    + injection ER as <- <-. cbn [with_rn rn andb]. auto.
+      * injection ER as <- <-. split; [reflexivity|]. split; [exact Q1|exact Q2].
+      * destruct (existsb (Z.eqb p) acc); injection ER as <- <-; (split; [reflexivity|]; split; [exact Q1|exact Q2]).
+    + injection ER as <- <-. split; [reflexivity|]. split; [exact Q1|exact Q2].
 Qed.
 Print Assumptions iso_broadcast_never_nak.
 
@@ -254,7 +255,8 @@ Print Assumptions iso_dispatch.
 
 Theorem iso_system_dispatch : iso_system_dispatch_stmt.
 Proof.
-  unfold iso_system_dispatch_stmt. intros gf r s Hpgn. split; [intros c; reflexivity|]. unfold handle_system. rewrite Hpgn. split.
+  unfold iso_system_dispatch_stmt. intros gf r s Hpgn.
+  split; [intros c; unfold check_known; destruct (is_none (sf0 c)); destruct (is_none (fp0 c)); reflexivity|]. unfold handle_system. rewrite Hpgn. split.
   - intros [Hm|Hm] Hs; rewrite Hm, Hs; reflexivity.
   - intros [Hm|[Hm|Hm]]; rewrite Hm; [|reflexivity|reflexivity]. cbn [Z.eqb orb negb]. rewrite andb_false_r. reflexivity.
 Qed.
